@@ -13,7 +13,7 @@ import numpy as _np
 
 from .core import Sym, SymBool, EngineError, uf_apply, engine
 
-_CALLERS = ('taurex', 'props', 'symx.spec')
+_CALLERS = ('taurex', 'props', 'symx.spec', 'symx.shim')
 
 _orig = {}
 
@@ -155,6 +155,28 @@ def _nan_to_num(x, *a, **k):
                     out[idx] = _math.copysign(1.7976931348623157e+308, v)
         return out
     return _orig[('np', 'nan_to_num')](x, *a, **k)
+
+
+def _linspace(start, stop, num=50, *a, **k):
+    if _sym_caller() and (_has_sym(start) or _has_sym(stop)):
+        if a or k:
+            raise EngineError('linspace options on symbolic ends')
+        num = int(num)
+        out = _np.empty(num, dtype=object)
+        for i in range(num):
+            out[i] = start if num == 1 else start + (stop - start) * i / (num - 1)
+        if num > 1:
+            out[num - 1] = stop
+        return out
+    return _orig[('np', 'linspace')](start, stop, num, *a, **k)
+
+
+def _logspace(start, stop, num=50, *a, **k):
+    if _sym_caller() and (_has_sym(start) or _has_sym(stop)):
+        if a or k:
+            raise EngineError('logspace options on symbolic ends')
+        return 10 ** _linspace(start, stop, num)
+    return _orig[('np', 'logspace')](start, stop, num, *a, **k)
 
 
 def _sum(x, *a, **k):
@@ -320,7 +342,7 @@ def shims():
             saved_np[n] = getattr(_np, n)
             _orig[('np', n)] = saved_np[n]
             setattr(_np, n, mk(n))
-        for n, f in (('sum', _sum), ('power', _power), ('nan_to_num', _nan_to_num), ('nansum', _nansum),
+        for n, f in (('linspace', _linspace), ('logspace', _logspace), ('sum', _sum), ('power', _power), ('nan_to_num', _nan_to_num), ('nansum', _nansum),
                      ('interp', _interp), ('gradient', _gradient), ('average', _average),
                      ('histogram', _histogram), ('digitize', _digitize)):
             saved_np[n] = getattr(_np, n)
